@@ -1,6 +1,8 @@
 package eng
 
 import (
+	"sync"
+
 	"golang.org/x/tools/go/ssa"
 )
 
@@ -157,10 +159,28 @@ func ArgFor(call *ssa.Call, prm *ssa.Parameter) ssa.Value {
 	return call.Call.Args[i]
 }
 
+var (
+	syncReachMu   sync.Mutex
+	syncReachMemo = map[*ssa.Function]map[*ssa.Function]bool{}
+)
+
 // SyncReach returns the module functions reachable from the roots through synchronous
 // static calls and deferred calls (not go statements), including closures created on the way.
 func (p *Prog) SyncReach(roots ...*ssa.Function) map[*ssa.Function]bool {
 	seen := map[*ssa.Function]bool{}
+	if len(roots) == 1 {
+		syncReachMu.Lock()
+		m, ok := syncReachMemo[roots[0]]
+		syncReachMu.Unlock()
+		if ok {
+			return m
+		}
+		defer func() {
+			syncReachMu.Lock()
+			syncReachMemo[roots[0]] = seen
+			syncReachMu.Unlock()
+		}()
+	}
 	var walk func(f *ssa.Function)
 	walk = func(f *ssa.Function) {
 		if f == nil || seen[f] || !InModule(f) || len(f.Blocks) == 0 {
